@@ -2,7 +2,6 @@ package kernel
 
 import (
 	"context"
-	"fmt"
 	"math/rand"
 	"sync"
 	"time"
